@@ -54,7 +54,14 @@ pub fn reader_guid(r: u8) -> [u8; 16] {
 
 pub fn value_of(sn: i64, big: bool, frag: usize) -> Vec<u8> {
     // CDR VSample without encapsulation header
-    let body_len = if big { frag * 2 + 1 + (sn as usize * 3) % frag } else { (sn as usize * 5) % 19 };
+    // fragmented samples: total payload sizes (with the 4-byte encapsulation header) around multiples of
+    // the fragment size: exact multiple, one more, one less, and in between
+    let body_len = if big {
+        let total = [2 * frag, 2 * frag + 1, 3 * frag - 1, 3 * frag, 2 * frag + frag / 2, frag + 1, 4 * frag + 3][sn as usize % 7];
+        total - 16
+    } else {
+        (sn as usize * 5) % 19
+    };
     let body: Vec<u8> = (0..body_len).map(|i| (i as u64 * 17 + sn as u64 * 3 + 1) as u8).collect();
     wire::vsample_payload((sn % 3) as u32, 1000 + sn as u32, &body)[4..].to_vec()
 }
@@ -170,7 +177,7 @@ impl WExec {
                     &prefix,
                     &[Sub::AckNack { reader: [g[12], g[13], g[14], g[15]], writer: [WRITER_GUID[12], WRITER_GUID[13], WRITER_GUID[14], WRITER_GUID[15]], set: wire::NumSet::from_set(*base, &members), count, final_flag: true }],
                 );
-                let sent = self.rig.inject(&dg, false);
+                let sent = self.rig.receive(&dg);
                 let set = &members;
                 self.common(json!({"ev":"AckNack","r":r,"base":base,"set":set}), &sent, out);
             }
